@@ -916,3 +916,27 @@ Theorem c12_processor_threads_instr : forall (d : dump) (base : config) (ms : li
      pall_done (proc_pc src_walker d base) (pmrun src_program (proc_pc src_walker d base) ms) = true).
 Proof. exact processor_instr. Qed.
 Print Assumptions c12_processor_threads_instr.
+
+(* ---- the closure of HttpSymbolSupplier::locate_file_internal as statements (round 5, second pass; C12/FileProg.v,
+   C12/FileProgProofs.v): translate/c12_program.py regenerates its body as instructions (local lookup with early return;
+   if a lookup path exists: per server fetch_lookup().await with early return on success; the cab branch compiled out;
+   Err(NotFound)) and [fexec] gives them their meaning — total suspensions and answer.  For every file configuration and
+   file key the regenerated body means FileModel.file_script, the script the once-per-key theorems assume for a file slot,
+   and what a locate_file requester observes is that meaning. ---- *)
+From RM Require Import C12.FileProg C12.FileProgProofs.
+Theorem c12_source_file_closure_meaning : forall (fc : fconfig) (fk : fkey),
+  file_meaning src_file_body fc fk = Some (file_script fc fk).
+Proof. exact src_file_meaning. Qed.
+Print Assumptions c12_source_file_closure_meaning.
+
+Theorem c12_source_files_outcome_is_closure_meaning : forall (fc : fconfig) (sched : list task) (t : task) (i : nat)
+  (k : key) (o : outcome),
+  ptask_result (prun src_program (pc_of_fc fc) sched) t i = Some (k, o) ->
+  exists n, file_meaning src_file_body fc (dec k) = Some (n, o).
+Proof. exact src_files_outcome_is_closure_meaning. Qed.
+Print Assumptions c12_source_files_outcome_is_closure_meaning.
+
+Example c12_nonvacuous_file_closure :
+  file_meaning noreturn_body one_server (0, KSym) = Some (2, ONotFound) /\
+  file_meaning src_file_body one_server (0, KSym) = Some (2, OOk).
+Proof. exact noreturn_differs. Qed.
